@@ -50,9 +50,15 @@ func ruleG1(p *Prog) *RuleResult {
 					key := fmt.Sprintf("%s|global %s", fname(f), g.Name())
 					per[key]++
 					c := fmt.Sprintf("%s#%d", key, per[key])
-					if strings.Contains(gt, "sync.Pool") {
-						res.ok(c, p.ipos(ins), "sync.Pool (synchronised by the pool)")
+					if strings.Contains(gt, "sync.") || strings.Contains(gt, "atomic.") {
+						res.ok(c, p.ipos(ins), "a sync / sync/atomic value (sync.Pool, Once, Mutex, atomic counter): synchronised by its own type")
 						continue
+					}
+					if cc, isCall := ins.(*ssa.Call); isCall {
+						if g2 := cc.Call.StaticCallee(); g2 != nil && strings.HasPrefix(g2.String(), "sync/atomic.") {
+							res.ok(c, p.ipos(ins), "accessed through sync/atomic")
+							continue
+						}
 					}
 					if why := globalWrite(ins, g); why != "" {
 						res.bad(c, p.ipos(ins), fmt.Sprintf("package-level variable %s.%s is %s: the memory is shared by every goroutine and every bitmap, so concurrent or interleaved calls on unrelated bitmaps interfere", g.Pkg.Pkg.Name(), g.Name(), why))
